@@ -391,11 +391,13 @@ theorem fo_apiSubscribe (p : Nat) (a : SubArg) (q : Int) : FiresOk (apiSubscribe
       · fo
       · split
         · fo
-        · apply fo_makeId; intro i
-          generalize encodeWithId _ i _ = E
-          cases E with
-          | error e => fo
-          | ok bs => exact fo_registerSubUnsub _ _ _ _
+        · split
+          · fo
+          · apply fo_makeId; intro i
+            generalize encodeWithId _ i _ = E
+            cases E with
+            | error e => fo
+            | ok bs => exact fo_registerSubUnsub _ _ _ _
 theorem fo_apiUnsubscribe (p : Nat) (a : UnsubArg) : FiresOk (apiUnsubscribe p a) := by
   unfold apiUnsubscribe
   apply fo_read; intro w
@@ -408,11 +410,13 @@ theorem fo_apiUnsubscribe (p : Nat) (a : UnsubArg) : FiresOk (apiUnsubscribe p a
     · fo
     · split
       · fo
-      · apply fo_makeId; intro i
-        generalize encodeWithId _ i _ = E
-        cases E with
-        | error e => fo
-        | ok bs => exact fo_registerSubUnsub _ _ _ _
+      · split
+        · fo
+        · apply fo_makeId; intro i
+          generalize encodeWithId _ i _ = E
+          cases E with
+          | error e => fo
+          | ok bs => exact fo_registerSubUnsub _ _ _ _
 theorem fo_apiSetWindow (p : Nat) (n : PyNum) : FiresOk (apiSetWindow p n) := by unfold apiSetWindow; fo
 theorem fo_apiSetTimeout (p : Nat) (n : PyNum) : FiresOk (apiSetTimeout p n) := by unfold apiSetTimeout; fo
 theorem fo_apiSetBandwith (p : Nat) (b f : Rat) : FiresOk (apiSetBandwith p b f) := by unfold apiSetBandwith; fo
